@@ -80,6 +80,10 @@ type Case struct {
 	STable uint32 `json:"stable,omitempty"`
 	Procs  int    `json:"procs"`           // stream-processor configuration, see h2kit.Factories
 	Debug  bool   `json:"debug,omitempty"` // Config.EnableDebugLogs
+	// Chain, if not empty, replaces Procs: one entry per StreamProcessorFactory, in order;
+	// 0 a factory returning (nil, nil), 1 pass-through processors for both directions, 2 for
+	// client-to-server only (nil for the other), 3 for server-to-client only.
+	Chain []int `json:"chain,omitempty"`
 }
 
 var (
@@ -389,6 +393,7 @@ func genCase(t *rapid.T) Case {
 		SWin:   genWin(t, "swin"),
 		Procs:  rapid.IntRange(0, 4).Draw(t, "procs"),
 		Debug:  rapid.IntRange(0, 2).Draw(t, "debuglogs") == 0,
+		Chain:  rapid.SliceOfN(rapid.IntRange(0, 3), 0, 3).Draw(t, "chain"),
 		CMax:   rapid.SampledFrom([]uint32{0, 0, 16384, 32768, 1 << 20}).Draw(t, "cmax"),
 		SMax:   rapid.SampledFrom([]uint32{0, 0, 16384, 32768, 1 << 20}).Draw(t, "smax"),
 		CTable: rapid.SampledFrom([]uint32{0, 0, 4096, 8192, 65536}).Draw(t, "ctable"),
